@@ -614,6 +614,7 @@ func runDaemon(cfg Cfg) {
 			delete(d.toKill, p)
 		}
 	}
+	d.scenario("slow", 1, 2300, false, false) // a daemon that needs a good two seconds before Done()
 	if cfg.Thorough() {
 		// a daemon that needs several seconds before Done(): Launch must still wait for it
 		d.scenario("very-slow", 1, 6500, false, false)
